@@ -488,6 +488,8 @@ class Model:
             return ("getitem", callee[1], to_term(pos[0]))             # d.__getitem__(k) is d[k]
         if isinstance(callee, tuple) and callee and callee[0] == "attr" and len(callee) == 3 and callee[2] == "astype" and pos:
             return ("astype", to_term(pos[0]), callee[1])          # a cast of an array-valued term
+        if isinstance(callee, tuple) and callee and callee[0] == "attr" and len(callee) == 3 and callee[2] in ("intersection", "isdisjoint") and len(pos) == 1 and not kw:
+            return self.ops.python_method(callee[1], callee[2], pos, kw, node)          # symbolic sets: canonical "share an element" form
         if isinstance(callee, tuple) and callee and callee[0] == "attr":
             # method on an opaque object
             self.log("opaque-call", node, callee=T.show(callee), args=[to_term(x) for x in pos])
